@@ -1685,6 +1685,55 @@ func c16RandTicket(r *Run, mostlyValid bool) string {
 		pick("-", "1n", "1v", "1v", "1x", "0v", "2v", "2n"))
 }
 
+// c16Situation returns (state, receiver ticket, provider ticket) as they meet
+// in honest runs, with one ticket field deviating in 60% of the cases.
+func c16Situation(r *Run, prov bool) (int, string, string) {
+	type sit struct {
+		cur      int
+		recv, pv string
+	}
+	const (
+		off = "0.1.v.0.1n"
+		reg = "0.2.v.1.1n"
+		ord = "0.3.v.1.1v"
+		exp = "0.4.v.1.1v"
+		can = "0.6.v.1.1v"
+	)
+	var sits []sit
+	if prov {
+		// receiver ticket = incoming, provider ticket = local
+		sits = []sit{{0, off, off}, {1, reg, off}, {2, reg, reg}, {3, reg, ord}, {4, reg, exp},
+			{2, can, reg}, {4, can, exp}, {4, exp, exp}, {2, reg, ord}}
+	} else {
+		// receiver ticket = local, provider ticket = incoming
+		sits = []sit{{2, reg, reg}, {2, reg, ord}, {2, reg, ord}, {4, exp, ord}, {2, reg, off}, {4, exp, off},
+			{2, reg, can}, {4, exp, can}, {4, exp, exp}}
+	}
+	st := sits[r.Rng.Intn(len(sits))]
+	if r.Rng.Intn(10) < 6 {
+		which := &st.pv
+		if r.Rng.Intn(3) == 0 {
+			which = &st.recv
+		}
+		f := strings.Split(*which, ".")
+		pick := func(xs ...string) string { return xs[r.Rng.Intn(len(xs))] }
+		switch r.Rng.Intn(5) {
+		case 0:
+			f[0] = "1"
+		case 1:
+			f[1] = strconv.Itoa(r.Rng.Intn(8))
+		case 2:
+			f[2] = pick("x", "n", "y", "y")
+		case 3:
+			f[3] = pick("0", "1")
+		default:
+			f[4] = pick("-", "1n", "1x", "0v", "0n", "2v", "2n", "1v")
+		}
+		*which = strings.Join(f, ".")
+	}
+	return st.cur, st.recv, st.pv
+}
+
 func c16RunSteps(r *Run, k *c16Keys, n int) {
 	w := newC16World(r, k)
 	// a recipient store that knows ticket 0 (for the real validate/expect)
@@ -1701,6 +1750,12 @@ func c16RunSteps(r *Run, k *c16Keys, n int) {
 		cur := c16States[r.Rng.Intn(7)]
 		mostly := r.Rng.Intn(4) != 0
 		recv, pv := c16RandTicket(r, mostly), c16RandTicket(r, mostly)
+		if r.Rng.Intn(3) == 0 {
+			// a situation of an honest run, with at most one field of one
+			// of the two tickets changed
+			cur, recv, pv = c16Situation(r, prov)
+			r.Count("step/situation")
+		}
 		sc := &c16Script{sendOk: r.Rng.Intn(8) != 0, updOk: r.Rng.Intn(8) != 0}
 		var op string
 		if prov {
